@@ -1,6 +1,6 @@
 """C13 - origin policy and CORS headers."""
 FUNCTIONS = ['base_server.BaseServer._cors_allowed_origins', 'base_server.BaseServer._cors_headers']
-FUNCTIONS += ['server.Server.handle_request']
+FUNCTIONS += ['server.Server.handle_request', 'async_server.AsyncServer.handle_request']
 
 LEVEL_TEXT = "_cors_allowed_origins and _cors_headers are verified against the statement-derived spec functions origin_allowed / acao_expected (default = own scheme://host plus the forwarded variant from the first comma-separated token; '*'; string; list; predicate); ACAO is emitted only with an allowed request Origin and equals it, Allow-Credentials only when enabled, nothing when the allow-list is []"
 LEVEL_NOTE = 'str.split/strip/format library contracts; the configured predicate is a pure function; the gate-first clause is part of handle_request (thorough tier)'
